@@ -356,7 +356,8 @@ def c12_key(c):
     else:
         body = f"N={c['n']},size={c['size']},W={c['W']},zeros={sum(1 for x in c['weights'] if x == 0)}"
     return (f"{s}:{body},seed={c['seed']}" + (f",procgroup={c['pg']}" if c.get("pg") else "")
-            + (f",stacked{'+warm' if c.get('warm') else ''}" if c.get("stack") else ""))
+            + (f",stacked{'+warm' if c.get('warm') else ''}" if c.get("stack") else "")
+            + (",launcher-env" if c.get("lenv") else ""))
 
 
 def c12_nontrivial(c, sc):
@@ -436,7 +437,8 @@ def c13_key(c):
     else:
         body = f"N={c['n']},size={c['size']},W={c['W']},zeros={sum(1 for x in c['weights'] if x == 0)}"
     return (f"{s}:{body},seed={c['seed']}" + (f",procgroup={c['pg']}" if c.get("pg") else "")
-            + (f",stacked{'+warm' if c.get('warm') else ''}" if c.get("stack") else ""))
+            + (f",stacked{'+warm' if c.get('warm') else ''}" if c.get("stack") else "")
+            + (",launcher-env" if c.get("lenv") else ""))
 
 
 def c13_nontrivial(c):
@@ -651,12 +653,21 @@ def run(prop, tier, seed):
             r.shuffle(perm)
             c["stack"], c["warm"] = perm, r.random() < 0.7
         sched = schedule_for(r, c["sampler"], n_epochs=(4 if quick else 5))
+        launcher_env = (i % 9 == 4) and i not in pg_ids
+        c["lenv"] = launcher_env
+        if launcher_env:
+            # a process started by a launcher (RANK / WORLD_SIZE / LOCAL_RANK in the environment) that has NOT
+            # initialised a process group: explicit rank arguments count, nothing else
+            os.environ.update(RANK="1", WORLD_SIZE="2", LOCAL_RANK="1")
         if i in pg_ids:
             # torch's own DistributedSampler refuses default ranks before the group exists: no preview there
             c["pg"] = "preview" if (len(traces) % 2 == 0 and c["sampler"] != "dist") else "plain"
             ev = observe_pg(c, sched, with_g1, preview=(c["pg"] == "preview"))
         else:
             ev = observe(c, sched, with_g1)
+        if launcher_env:
+            for k_ in ("RANK", "WORLD_SIZE", "LOCAL_RANK"):
+                os.environ.pop(k_, None)
         t = dict(id=i + 1, cfg=spec_cfg(c), ev=ev)
         traces.append(t)
         meta[i + 1] = c
